@@ -36,7 +36,7 @@ try: m = json.load(open(d + '/meta.json'))
 except Exception: m = {}
 head = subprocess.run(['git','-C','/repo','rev-parse','--short','HEAD'], stdout=subprocess.PIPE, text=True).stdout.strip()
 meta = {'property': pid, 'summary': m.get('summary'), 'needs_to_manifest': m.get('needs_to_manifest'), 'files': m.get('files'),
-        'confirmed_on_repo_head': head,
+        'confirmed_on_repo_head': head, 'rebased': m.get('rebased'),
         'what_was_run': ['demo.py on a clean worktree of /repo HEAD: exit 0', 'demo.py with patch.diff applied: non-zero exit',
                          'pinned suite with patch applied: ' + suite, 'VERIF_REPO=<worktree> ./check %s --tier quick: %s' % (pid, verdict)],
         'check_result_quick': verdict}
